@@ -45,6 +45,10 @@ func pools(r *kit.Rand) []pool {
 		rnd = append(rnd, string(b))
 	}
 	rnd = append(rnd, "")
+	var wide []string // a large universe: deep trees (height 8-9) in the thorough tier
+	for i := 0; i < 400; i++ {
+		wide = append(wide, string([]byte{byte(i / 20), byte(i % 20 * 13)}))
+	}
 	return []pool{
 		{"tiny", []string{"", "a", "b", "c"}},
 		{"prefix", []string{"", "a", "aa", "aaa", "aab", "ab", "a\x00", "a\x00\x00", "a\xff", "b", "b\x00", "\x00", "\x00\x00"}},
@@ -52,6 +56,7 @@ func pools(r *kit.Rand) []pool {
 		{"seq", seq},
 		{"rnd", rnd},
 		{"utf8", []string{"", "é", "e", "f", "\xc3", "\xc3\xa9\x00", "日本", "日", "\xe6", "z"}},
+		{"wide", wide},
 	}
 }
 
